@@ -232,12 +232,13 @@ func c01Cases(r *mon.Runner) []mon.CaseSpec {
 					}
 				}
 				// no limit at all (both tiers): totals on and around whole multiples of 64 KiB, the unit in
-				// which an unlimited receive path may read a large body
+				// which an unlimited receive path may read a large body, and one total above the default limit of 1 MiB
+				// ("no limit" must not quietly mean "the default limit")
 				{
 					sp := base(tr, pd.name, mode)
 					sp.Set, sp.Limit, sp.Via = "unlimited", -1, c01Via(rnd, tr)
 					k := 2 + rnd.Intn(3)
-					sp.Sizes = []int{k*65536 - pd.wireHdr, 2*65536 - pd.wireHdr - 1, 2*65536 - pd.wireHdr + 1, 65536 - pd.wireHdr, (5+rnd.Intn(4))*65536 - pd.wireHdr, 100 + rnd.Intn(1000)}
+					sp.Sizes = []int{k*65536 - pd.wireHdr, 2*65536 - pd.wireHdr - 1, 2*65536 - pd.wireHdr + 1, 65536 - pd.wireHdr, (5+rnd.Intn(4))*65536 - pd.wireHdr, mib + 1 + rnd.Intn(1000), 100 + rnd.Intn(1000)}
 					add(sp)
 				}
 				// the default 1 MiB limit: totals 1 MiB-12 .. 1 MiB
